@@ -275,6 +275,18 @@ pub fn genimg(opts: &Opts) -> i32 {
     // directed key set for paginated readers (migration copies in batches of 256): every key is
     // followed by a key it is a proper prefix of; with and without one extra key in front, so that
     // whatever the batch size, a batch ends on a prefix key in one of the two layouts
+    // a value of exactly the largest accepted size (4 MiB), and one byte less
+    if opts.u64("bigvalue", 0) == 1 {
+        let max = 4 * 1024 * 1024;
+        let mut v = vec![0u8; max];
+        for (i, b) in v.iter_mut().enumerate() {
+            *b = (i % 253) as u8 + 1;
+        }
+        let _ = store.insert(b"bigmax", &v);
+        let _ = store.flush();
+        let _ = store.insert(b"bigmax-1", &v[..max - 1]);
+        let _ = store.flush();
+    }
     let pairs = opts.u64("prefixpairs", 0);
     if pairs > 0 {
         if opts.u64("prefixextra", 0) == 1 {
